@@ -238,3 +238,31 @@ def same_truth_table(atoms, fn, expected_atoms, expected_fn) -> bool:
         if bool(fn(a)) != bool(expected_fn(a)):
             return False
     return True
+
+
+def canon_compare(e: ast.AST) -> str:
+    """One spelling per comparison: `b > a` is `a < b`, `b >= a` is `a <= b`, the operands of == / != are put in text order."""
+    if isinstance(e, ast.Compare) and len(e.ops) == 1:
+        a, b, op = e.left, e.comparators[0], e.ops[0]
+        if isinstance(op, ast.Gt):
+            a, b, op = b, a, ast.Lt()
+        elif isinstance(op, ast.GtE):
+            a, b, op = b, a, ast.LtE()
+        elif isinstance(op, (ast.Eq, ast.NotEq)) and norm(a) > norm(b):
+            a, b = b, a
+        return norm(ast.Compare(left=a, ops=[op], comparators=[b]))
+    return norm(e)
+
+
+def canon_conjuncts(test: ast.AST) -> List[str]:
+    """The conjuncts of a test (a single `and`, nested or flat), each in canon_compare spelling, sorted."""
+    out = []
+
+    def rec(x):
+        if isinstance(x, ast.BoolOp) and isinstance(x.op, ast.And):
+            for v in x.values:
+                rec(v)
+        else:
+            out.append(canon_compare(x))
+    rec(test)
+    return sorted(out)
